@@ -40,11 +40,22 @@ def fixtures(scheme="CJJ14.PiBas"):
     return {"cfg": cfg, "db": db, "absent": b"delta"}
 
 
+def dirsnap(root):
+    """[(path below the service directory, size)] for every file under root (the sid component is dropped)"""
+    out = []
+    for dp, _dn, fn in os.walk(root):
+        for f in fn:
+            p = os.path.join(dp, f)
+            rel = os.path.relpath(p, root).split(os.sep)
+            out.append(["/".join(rel[1:]) if len(rel) > 1 else rel[0], os.path.getsize(p)])
+    return sorted(out)
+
+
 class Run:
     def __init__(self, fx, base):
         self.fx = fx
         self.base = base
-        self.w = fe_world.World(REPO, base)
+        self.w = fe_world.World(REPO, base, echo_cap=30)
         fsx.clear()
         self.comp = {"server": fsx.register("server", self.w.sdir), "client": fsx.register("client", self.w.cdir)}
         self.sid = ""
@@ -135,6 +146,7 @@ class Run:
             await self.w.shutdown()
             return self.ev
         self.ev.append({"e": "crash", "comp": comp_name, "h": handler})
+        self.snap_after_crash = dirsnap(self.w.sdir if comp_name == "server" else self.w.cdir)
         # ---- the component dies ...
         if comp_name == "server":
             await self.w.stop_server(graceful=False)
@@ -145,6 +157,10 @@ class Run:
             await self.w.drop_client(persist=False)
             await asyncio.sleep(0.02)
             fsx.revive(c)
+        await self.recover(handler)
+        return self.ev
+
+    async def recover(self, handler):
         # ---- after the restart
         if self.sid:
             ok, rep = await self.probe()
@@ -167,6 +183,56 @@ class Run:
         await self.searches()
         self.ev.append({"e": "end"})
         await self.w.shutdown()
+
+    async def real_kill_run(self, comp_name, handler, j, when):
+        """The same crash point, but the component is a CHILD PROCESS that really dies (os._exit) at the operation."""
+        import pickle
+        import subprocess
+        import sys
+        child = os.path.join(os.path.dirname(os.path.abspath(__file__)), "c13_child.py")
+        await self.w.start_server()
+        for op in WORKFLOW:
+            if op == handler:
+                break
+            r = await self.op(op)
+            self.ev.append({"e": "step", "op": op, "out": r["out"]})
+        env = dict(os.environ)
+        if comp_name == "client":
+            payload = os.path.join(self.base, "db.pickle")
+            with open(payload, "wb") as fh:
+                pickle.dump(self.fx["db"], fh)
+            p = subprocess.run([sys.executable, "-B", child, REPO, os.environ["HOME"], "client", str(self.w.cdir), str(j), when,
+                                handler, self.sid, payload], env=env, stdout=subprocess.PIPE, stderr=subprocess.STDOUT, timeout=120)
+            self.child_rc = p.returncode
+        else:
+            await self.w.stop_server()
+            p = subprocess.Popen([sys.executable, "-B", child, REPO, os.environ["HOME"], "server", str(self.w.sdir), str(j), when],
+                                 env=env, stdout=subprocess.PIPE, stderr=subprocess.STDOUT, text=True)
+            line = await asyncio.get_running_loop().run_in_executor(None, p.stdout.readline)
+            if not line.startswith("PORT"):
+                p.kill()
+                raise MachineryError("server child did not start: %r" % line)
+            self.w.global_config.ClientConfig.SERVER_URI = "ws://127.0.0.1:%d" % int(line.split()[1])
+            self.w.cproxy.cap = 3
+            t = asyncio.ensure_future(self.w.client_op(handler, self.sid, None, keep=True))
+            while p.poll() is None and not t.done():
+                await asyncio.sleep(0.01)
+            if p.poll() is None:        # the operation finished and the child is still alive: the plan was not reached
+                p.kill()
+            else:
+                await asyncio.sleep(0.05)
+                t.cancel()
+            try:
+                await t
+            except BaseException:
+                pass
+            self.child_rc = p.wait()
+            await self.w.drop_client(persist=True)
+            self.w.cproxy.cap = 30
+            await self.w.start_server()
+        self.ev.append({"e": "crash", "comp": comp_name, "h": handler})
+        self.snap_after_crash = dirsnap(self.w.sdir if comp_name == "server" else self.w.cdir)
+        await self.recover(handler)
         return self.ev
 
 
@@ -245,6 +311,60 @@ def execute(fx, plan, idx):
     return ev
 
 
+def execute_real(fx, plan, k0, idx):
+    """-> (events, child exit code, directory snapshot right after the real kill)"""
+    comp, h, k, when = plan[:4]
+    d = os.path.join(subdir("c13-real"), "r%d" % idx)
+    os.makedirs(d, exist_ok=True)
+    r = Run(fx, d)
+    try:
+        ev = _loop_run(lambda: r.real_kill_run(comp, h, k - k0, when))
+    finally:
+        shutil.rmtree(d, ignore_errors=True)
+    return ev, getattr(r, "child_rc", None), getattr(r, "snap_after_crash", None)
+
+
+def execute_snap(fx, plan, idx):
+    """emulated crash: the directory snapshot right after the crash"""
+    comp, h, k, when, res = plan[:5]
+    d = os.path.join(subdir("c13-data"), "q%d" % idx)
+    fsx.install()
+    try:
+        r = Run(fx, d)
+        _loop_run(lambda: r.crash_run(comp, h, k, when, res))
+    finally:
+        fsx.uninstall()
+        fsx.clear()
+        shutil.rmtree(d, ignore_errors=True)
+    return getattr(r, "snap_after_crash", None)
+
+
+def real_kill_validation(fx, ops, plans, tr):
+    """A sample of the crash points is executed with a child process that REALLY dies at the operation; the files it leaves
+    must be what the in-process emulation leaves under one of its resolutions, and the recovery is judged like any other run."""
+    rnd = random.Random(seed() + 1313)
+    cand = {}
+    for p in plans:
+        comp, h = p[0], p[1]
+        if comp == "client" and h not in ("genkey", "encrypt"):
+            continue            # create does not return its sid; the echo handlers need a live connection inside the child
+        cand.setdefault((comp, h, p[2], p[3]), []).append(p)
+    keys = sorted(cand)
+    n = 8 if tr == "quick" else len(keys)
+    keys = keys if n >= len(keys) else rnd.sample(keys, n)
+    jobs = [(i, key) for i, key in enumerate(keys)]
+    res = pmap(lambda a: execute_real(fx, a[1], ops[(a[1][0], a[1][1])][0], a[0]), jobs, nproc=8)
+    emu = pmap(lambda a: [execute_snap(fx, p, a[0] * 10 + q) for q, p in enumerate(cand[a[1]])], jobs, nproc=8)
+    traces, notes = [], []
+    for (i, key), (ev, rc, snap), esnaps in zip(jobs, res, emu):
+        traces.append({"tid": "real%d" % i, "ev": ev, "plan": list(key) + ["real", "", ""]})
+        if rc != 137:
+            notes.append("child for %s exited with %r instead of dying at the operation" % (list(key), rc))
+        elif snap not in esnaps:
+            notes.append("real kill at %s leaves %s; the emulation leaves %s" % (list(key), snap, esnaps))
+    return traces, notes
+
+
 def main(argv_tier=None, replay_path=None):
     t0 = time.time()
     tr = tier(argv_tier)
@@ -271,6 +391,10 @@ def main(argv_tier=None, replay_path=None):
     traces = [{"tid": "p%d" % i, "ev": ev, "plan": list(p)} for (i, p), ev in zip(enumerate(plans), evs)]
     if any(t["ev"] and t["ev"][-1].get("e") == "nocrash" for t in traces):
         raise MachineryError("a crash plan did not reach its operation (dry run not representative)")
+    rtraces, fidelity = real_kill_validation(fx, ops, plans, tr)
+    for nline in fidelity[:10]:
+        print("FIDELITY-NOTE property=C13 %s" % nline)
+    traces += rtraces
     verdicts, agg = validate_traces("Trace_CrashRecovery", [{"tid": t["tid"], "ev": t["ev"]} for t in traces], shards=4)
     rej = []
     for t in traces:
@@ -286,7 +410,8 @@ def main(argv_tier=None, replay_path=None):
                                                        "verdict": x["verdict"], "seed": seed()})
         vio_out.append(("crash %s in %s.%s at op %d (%s %s, leaves %s): clause=%s step=%d" % (
             x["trace"]["plan"][3], x["trace"]["plan"][0], x["trace"]["plan"][1], x["trace"]["plan"][2],
-            x["trace"]["plan"][5], x["trace"]["plan"][6], x["trace"]["plan"][4], x["verdict"]["clause"],
+            x["trace"]["plan"][5] if len(x["trace"]["plan"]) > 5 else "", x["trace"]["plan"][6] if len(x["trace"]["plan"]) > 6 else "",
+            x["trace"]["plan"][4], x["verdict"]["clause"],
             x["verdict"]["step"]), p))
     for d in model.get("drift", []):
         print("DRIFT property=C13 %s" % d)
@@ -299,6 +424,7 @@ def main(argv_tier=None, replay_path=None):
                 "crash points enumerated from the recorded FS-operation log of each persisting handler (server: config, upload; "
                 "client: create, genkey, encrypt, upload-config echo, upload-index echo); non-trivial = the crash was reached",
         "exhaustive": True,
+        "real_kill_runs": len(rtraces), "real_kill_fidelity_notes": fidelity[:20],
         "handler_programs": programs,
         "drift": model.get("drift", []),
         "samples": [{"plan": t["plan"], "events": t["ev"]} for t in traces[len(traces) // 2:len(traces) // 2 + 2]],
